@@ -369,14 +369,21 @@ def main(tier: str) -> int:
     with Pool(init=("mc.runners", "warm_oracle"), job_timeout=400) as pool:
         # layer 3, step 1: harvest call forms by running the testcases eagerly, before this pool converts anything
         merged: Dict[str, Dict[str, Any]] = {}
+        by_stripe: Dict[int, List[Dict[str, Any]]] = {}
         n_str = 16
         for _i, p, hv in pool.imap("checks.c19", "job_harvest", [{"stripe": k, "n_stripes": n_str} for k in range(n_str)], timeout=600):
             if is_worker_failure(hv):
                 run.harness_error(f"harvest stripe {p['stripe']}: {hv.get('_worker')} {hv.get('msg', '')[:200]}")
                 run.cap("a harvest stripe failed")
                 continue
-            for c in hv["calls"]:
-                merged.setdefault(c["key"], c)
+            by_stripe[p["stripe"]] = hv["calls"]
+        # one recorded call per (function, call shape), chosen independently of job completion order: the one with the
+        # largest first argument (a one-element input cannot tell alpha=0.1 from alpha=1.0), ties by stripe number
+        for k in sorted(by_stripe):
+            for c in by_stripe[k]:
+                cur = merged.get(c["key"])
+                if cur is None or np.asarray(c["args"][0]).size > np.asarray(cur["args"][0]).size:
+                    merged[c["key"]] = c
         hcalls = [merged[k] for k in sorted(merged)]
         r = pool.map("checks.c19", "job_static", [None])[0]
         if is_worker_failure(r):
